@@ -10,6 +10,12 @@ Collector side
     * ``nonaffine``               semantic non-affinity: some second finite difference in the target
                                   atoms is not the zero rational function
 
+Collector side, node types outside + * / ** (floor division, remainder, shifts, bitwise and logical
+operators, comparisons, if, min, max, common subexpressions): no rational function exists, so
+    * ``ExactPoint`` / ``grid_table``   exact integer/Fraction value at every point of a small grid
+    * ``grid_nonaffine``                a non-zero second finite difference at some grid point
+                                        proves non-affinity (a vanishing one proves nothing)
+
 Solver side
     * ``equation``                write the system  A u = B p + c  as (lhs, rhs) pairs in several
                                   equivalent forms
@@ -21,6 +27,7 @@ from fractions import Fraction
 from functools import lru_cache
 
 from vf.exact import Poly, RatFun
+from vf.refsem import Ref
 from vf.spec import C, T, V, show
 
 LEAF_TAGS = ("Variable", "Subscript", "Call", "Lookup")
@@ -327,6 +334,141 @@ def mentions_target(coeff_spec, targets) -> bool:
         return any(leaf_status(lf, targets) != "param" for lf in leaves(coeff_spec))
     except Unsupported:
         return True
+
+# }}}
+
+
+# {{{ pointwise exact semantics for trees with operators outside + * / **
+
+FOREIGN_TAGS = ("FloorDiv", "Remainder", "LeftShift", "RightShift", "BitwiseNot", "BitwiseOr",
+                "BitwiseXor", "BitwiseAnd", "Comparison", "LogicalNot", "LogicalOr", "LogicalAnd",
+                "If", "Min", "Max", "CommonSubexpression")
+GRID = (-2, -1, 0, 1, 2, 3)      # every atom takes every value of GRID (exact integer points)
+MAX_GRID_ATOMS = 4               # trees with more atoms are not inputs of the pointwise oracle
+
+
+class ExactPoint(Ref):
+    """vf.refsem's reference evaluator (one plain Python operator per node) made exact: true
+    division and negative powers over Fraction instead of float; every algebraic leaf is an opaque
+    atom whose value is looked up by name."""
+
+    def ev(self, s):
+        v = super().ev(s)
+        if isinstance(v, Fraction) and v.denominator == 1:
+            return int(v)
+        return v
+
+    def _atom(self, s):
+        return self.env[atom_name(s)]
+
+    n_Variable = n_Subscript = n_Call = n_Lookup = _atom
+
+    def n_frac(self, s):
+        return Fraction(s[1], s[2])
+
+    def n_Quotient(self, s):
+        return Fraction(self.ev(s[1])) / Fraction(self.ev(s[2]))
+
+    def n_Power(self, s):
+        b, e = self.ev(s[1]), self.ev(s[2])
+        if isinstance(e, bool):
+            e = int(e)
+        if not isinstance(e, int) or abs(e) > MAX_EXPONENT:
+            raise Unsupported("exponent")
+        return Fraction(b) ** e
+
+    def n_LeftShift(self, s):
+        a, n = self.ev(s[1]), self.ev(s[2])
+        if isinstance(n, int) and n > MAX_EXPONENT:
+            raise Unsupported("shift")
+        return a << n
+
+
+def has_foreign(s) -> bool:
+    if not isinstance(s, tuple) or not s or not isinstance(s[0], str):
+        return False
+    if s[0] in FOREIGN_TAGS:
+        return True
+    if s[0] in LEAF_TAGS or s[0] in ("int", "bool", "frac", "str", "none"):
+        return False
+    return any(has_foreign(c) for c in s[1:])
+
+
+def leaves_any(s):
+    """Algebraic leaves of any expression spec (does not descend into a leaf)."""
+    if not isinstance(s, tuple) or not s or not isinstance(s[0], str):
+        return
+    if s[0] in LEAF_TAGS:
+        yield s
+        return
+    if s[0] in ("int", "bool", "frac", "float", "complex", "str", "none", "type"):
+        return
+    for c in s[1:]:
+        yield from leaves_any(c)
+
+
+def atoms_of(s):
+    out = []
+    for lf in leaves_any(s):
+        n = atom_name(lf)
+        if n not in out:
+            out.append(n)
+    return out
+
+
+def point_value(s, env):
+    """Exact value of *s* at the point *env* (atom name -> int), or None where it has none
+    (division by zero, negative shift count, non-integer operand of a shift, ...)."""
+    try:
+        return ExactPoint(env).ev(s)
+    except RecursionError:
+        raise
+    except Exception:  # noqa: BLE001
+        return None
+
+
+@lru_cache(maxsize=4096)
+def grid_table(s):
+    """-> (atom names, {point: exact value or None}) over GRID ** atoms; None if too many atoms."""
+    import itertools
+    atoms = tuple(atoms_of(s))
+    if len(atoms) > MAX_GRID_ATOMS:
+        return None
+    table = {}
+    for pt in itertools.product(GRID, repeat=len(atoms)):
+        table[pt] = point_value(s, dict(zip(atoms, pt)))
+    return atoms, table
+
+
+def grid_nonaffine(s, tatoms):
+    """A grid point and a pair of target atoms at which the second finite difference of *s* is a
+    non-zero number (all points involved have a value): a proof that *s* is not affine in the
+    target atoms.  None if there is no such point on the grid (which proves nothing)."""
+    atoms, table = grid_table(s)
+    idx = [atoms.index(t) for t in tatoms if t in atoms]
+
+    def shift(pt, i, k=1):
+        return pt[:i] + (pt[i] + k,) + pt[i + 1:]
+
+    for pt, f0 in table.items():
+        if f0 is None:
+            continue
+        for a, i in enumerate(idx):
+            f1, f2 = table.get(shift(pt, i)), table.get(shift(pt, i, 2))
+            if f1 is not None and f2 is not None and f2 - 2 * f1 + f0 != 0:
+                return pt, atoms[i], atoms[i]
+            if f1 is None:
+                continue
+            for j in idx[a + 1:]:
+                g1 = table.get(shift(pt, j))
+                g2 = table.get(shift(shift(pt, i), j))
+                if g1 is not None and g2 is not None and g2 - f1 - g1 + f0 != 0:
+                    return pt, atoms[i], atoms[j]
+    return None
+
+
+def mentions_target_any(coeff_spec, targets) -> bool:
+    return any(leaf_status(lf, targets) != "param" for lf in leaves_any(coeff_spec))
 
 # }}}
 
